@@ -198,7 +198,7 @@ func (s *StateDB) vMaterializeIdentity(addr common.Address) {
 		id := VBuildIdentity("id." + n)
 		VL.PreStake[i] = new(big.Int).Set(stakeOrZero(&id))
 		VL.PreState[i] = id.State
-		VL.PreDelegatee[i] = id.delegatee
+		VL.PreDelegatee[i] = id.Delegatee() // nil while an undelegation is pending: the identity has left its pool
 		VL.PreInviterPtr[i] = id.Inviter
 		s.VPutIdentity(VAddr(i), id)
 	}
